@@ -1,17 +1,28 @@
 (* C07 - executable model of the plonky2 gates (plonky2/src/gates/*.rs), for extension degree D = 2.
 
-   COVERED GATES (constraint evaluator gate_eval_unfiltered, counts, generators gate_generate):
+   COVERED GATES (constraint evaluator gate_eval_unfiltered, declared sizes, generators gate_generate):
      ArithmeticGate, ArithmeticExtensionGate, MulExtensionGate, BaseSumGate<B>, ConstantGate,
      CosetInterpolationGate, ExponentiationGate, PoseidonGate, PoseidonMdsGate, PublicInputGate,
      RandomAccessGate, ReducingGate, ReducingExtensionGate, NoopGate, LookupGate, LookupTableGate
    (the last two declare zero gate constraints; their generators belong to C08 and are not modelled).
    All sixteen are tied to the implementation by the C07 correspondence run (harness/src/c07.rs):
    Gate::eval_unfiltered (extension field), eval_unfiltered_base_batch (base field / packed), the
-   in-circuit evaluator, and the gates' SimpleGenerators run on a PartitionWitness.
+   in-circuit evaluator, Gate::eval_filtered / compute_filter, and the gates' SimpleGenerators run on a
+   PartitionWitness; 0 mismatches on the pinned tree.
+
+   Exported names used by other slices:
+     gate, gate_wf, gate_id, gate_num_wires, gate_num_constants, gate_degree, gate_num_constraints,
+     gate_eval_wires, gate_written, gate_eval_unfiltered, compute_filter, eval_filtered,
+     gate_writes / gate_generate / gate_gen_guard, coset_gate_new, two_adic_subgroup.
+   Theorems: Proofs/Gates*.v, stated in Props/C07.v (count, gen_sat, gen_pinned, filter_exact,
+   parametricity: base/extension agreement and the degree bound).
 
    Everything is written once over an abstract [FieldOps K] with an embedding of base-field
    constants [of_base : Z -> K] (class OfBase). K := Fp gives eval_unfiltered_base, K := Fp2
-   (Model/Fp2.v, OfBase instance in Model/C07Run.v) gives eval_unfiltered as used by the verifier.
+   (Model/Fp2.v, OfBase instance Fp2OfBase in Model/C07Run.v) gives eval_unfiltered as used by the verifier.
+   gate_eval_unfiltered g consts wires pi_hash: [consts] are the gate's constants AFTER the selector
+   prefix has been removed (eval_filtered does that), [wires] the full row (it may be longer than
+   gate_num_wires g, as in the verifier), [pi_hash] the four hash elements already embedded in K.
 
    Extension-algebra gates: in eval_unfiltered a wire pair (w0, w1) of K-elements is the element
    w0 + w1*X of ExtensionAlgebra K[X]/(X^2 - W), W = EXT2_W = 7 (vars.get_local_ext_algebra,
@@ -20,7 +31,7 @@
 
    Partiality. The Rust evaluators index slices and panic when a row is too short, and some gate
    parameters make the index arithmetic underflow (ExponentiationGate{0}, RandomAccessGate{bits=0} ..).
-   [gate_wf] is the parameter guard and [gate_num_wires]/[gate_num_constants] the size guard;
+   [gate_wf] is the parameter guard and [gate_eval_wires]/[gate_num_constants] the size guard;
    the run wrappers (Model/C07Run.v) return None (= panic) when they fail. *)
 From Coq Require Import ZArith List Lia Bool.
 From Verif Require Import Base.Field Gen.FieldConsts Gen.PoseidonConsts Model.Fp Model.FieldGeneric.
